@@ -40,7 +40,7 @@ UNADVERTISED = ["zz_other_class_attr", "_private", "__dunder__", "extras_of_othe
 def GATES(tier):
     return [("calls_judged", 3000), ("methods_checked", 300), ("mode:single", 500), ("mode:positional", 100), ("mode:kwonly_positional_rejected", 100), ("mode:default", 200),
             ("mode:pair", 300), ("mode:unadvertised", 300), ("nested_keyword_sets_compared", 100), ("kind:__init__", 20), ("kind:element", 50), ("kind:scalar", 100), ("kind:toplevel", 30),
-            ("init_false_attrs_seen", 3), ("overflow_classes", 2)]
+            ("init_false_attrs_seen", 3), ("overflow_classes", 2), ("mode:unadvertised_if_false", 100), ("behavioural_probes", 20)]
 
 
 class Spy:
@@ -212,6 +212,11 @@ def run(ctx, params):
                                 kw = dict(req_kw)
                                 kw[u] = object()
                                 call([], kw, "unadvertised", False)
+                            # an unadvertised keyword stays an error when the call is disabled with _if=False
+                            if "_if" in advertised:
+                                kw = dict(req_kw)
+                                kw.update({"_if": False, "no_such_attribute": object()})
+                                call([], kw, "unadvertised_if_false", False)
                         # (e) nested-attribute keywords
                         exp = expected_nested_keywords(decl, cname, mname, kind, attr)
                         if exp is not None:
@@ -225,10 +230,83 @@ def run(ctx, params):
                                               features=dict(base_feats, missing=sorted(exp_cmp - virtual)[:3], extra=sorted(virtual - exp_cmp)[:3]), case=[ci, cname, mname, "nested"])
                     finally:
                         fn.__globals__["implementation"] = original
+                behavioural_probes(ctx, world, decl, cname, [ci, cname])
                 if ci % 25 == 0:
                     ctx.sample({"class": cname, "example_signature": f"{cname}.update{inspect.signature(getattr(cls, 'update'))}"[:300], "methods": len(method_names(decl, cname))})
         finally:
             world.close()
+
+
+def behavioural_probes(ctx, world, decl, cname, case):
+    """
+    Without the spy: callables passed for `_transform` *and* for nested-attribute keywords in one call must both reach the
+    underlying behaviour (each recorder is invoked), on the top-level transform and on transform_<spec attribute>.
+    """
+    from vlib import driver as dr
+
+    cls = world.classes[cname]
+    attrs = decl.attrs_of(cname)
+    kw = dr.required_ctor_kwargs(world, cname, __import__("random").Random(0))
+    try:
+        inst = cls(**{k: world.build(r) for k, r in kw.items()})
+    except Exception:
+        return
+    calls = []
+
+    def rec(tag, fn=lambda v: v):
+        def f(v):
+            calls.append(tag)
+            return fn(v)
+        return f
+
+    probes = []
+    present = [n for n in attrs if n in inst.__dict__ and attrs[n][1].init]
+    if present:
+        n0 = present[0]
+        probes.append(("transform", lambda n0=n0: inst.transform(rec("_transform"), **{n0: rec(n0)}), ["_transform", n0]))
+    for n, (_o, a) in attrs.items():
+        if a.info.kind == "spec" and n in inst.__dict__ and "v" in inst.__dict__[n].__dict__:
+            probes.append((f"transform_{n}", lambda n=n: getattr(inst, f"transform_{n}")(rec("_transform"), v=rec("v")), ["_transform", "v"]))
+        if a.info.kind == "list" and a.info.elem in ("leaf", "kleaf") and len(inst.__dict__.get(n, [])) > 0:
+            probes.append((f"transform_{a.info.singular}", lambda n=n, a=a: getattr(inst, f"transform_{a.info.singular}")(0, rec("_transform"), _by_index=True, v=rec("v")), ["_transform", "v"]))
+    # flag parameters reach the behaviour with the value given: _by_index / _insert / _inplace / _if on a List[str] attribute
+    if "names" in attrs:
+        base = cls(**{k: world.build(r) for k, r in kw.items()})
+        object.__getattribute__(base, "__dict__")["names"] = ["P", "Q"]
+        checks = [
+            ("_by_index=True", lambda: base.without_name(0, _by_index=True).names, ["Q"]),
+            ("_by_index=False", lambda: base.without_name(0, _by_index=False).names, ValueError),
+            ("_insert=True", lambda: base.with_name("Z", _index=0, _insert=True).names, ["Z", "p", "q"]),
+            ("_insert=False", lambda: base.with_name("Z", _index=0, _insert=False).names, ["Z", "q"]),
+            ("_if=False", lambda: base.with_name("Z", _if=False) is base, True),
+            ("_inplace=False", lambda: base.with_name("Z") is base, False),
+        ]
+        for label, fn, want in checks:
+            ctx.count("behavioural_probes")
+            ctx.count("calls_judged")
+            try:
+                got = fn()
+            except Exception as e:
+                got = type(e)
+            ok = (got is want) if isinstance(want, type) else (got == want)
+            ctx.sig("behavioural_flag", label, ok)
+            if not ok:
+                ctx.violation("advertised_parameter_reaches_behaviour", f"{cname}: element helper on names=['P', 'Q'] with {label}: got {got!r}, expected {want!r}",
+                              features={"method": "element", "mode": "behavioural_flag", "flag": label.split("=")[0]}, case=case + [label])
+    for label, fn, expected in probes:
+        calls.clear()
+        ctx.count("behavioural_probes")
+        ctx.count("calls_judged")
+        try:
+            fn()
+        except Exception as e:
+            ctx.violation("advertised_parameter_reaches_behaviour", f"{cname}.{label} with _transform and a nested transform keyword raised {type(e).__name__}: {e}", features={"method": label.split("_")[0], "mode": "behavioural"}, case=case + [label])
+            continue
+        ctx.sig("behavioural", label.split("_")[0], tuple(sorted(set(calls))))
+        missing = [t for t in expected if t not in calls]
+        if missing:
+            ctx.violation("advertised_parameter_reaches_behaviour", f"{cname}.{label}(_transform, **nested transforms): the callables given for {missing} were never invoked (invoked: {calls})",
+                          features={"method": label.split("_")[0], "mode": "behavioural", "dropped": ["real" if m == "_transform" else "virtual" for m in missing]}, case=case + [label])
 
 
 def _blank(world, cname):
